@@ -277,8 +277,8 @@ static void l_apply(void *vs, int op)
         s->pre++; break; }
     case O_ARGV: {          /* the fp == NULL mode of spifconf_parse_line: "context text..." given outside any file */
         static char inc[400]; snprintf(inc, sizeof inc, "A %%include %s", g_linc);
-        const char *AL[10] = { "A attr value $V", "", "# c", "zz text", "A", "B x", "A %", "A %x", inc, "A %preproc cat" };
-        for (int i = 0; i < 10; i++) { b = malloc(CONFIG_BUFF); strcpy(b, AL[i]); spifconf_parse_line(NULL, (spif_charptr_t) b); free(b);
+        const char *AL[11] = { "A attr value $V", "", "# c", "zz text", "A", "B x", "A %", "A %x", inc, "A %preproc cat", "A # a comment after the context name" };
+        for (int i = 0; i < 11; i++) { b = malloc(CONFIG_BUFF); strcpy(b, AL[i]); spifconf_parse_line(NULL, (spif_charptr_t) b); free(b);
             if (fstate_idx != 0) { FAIL("spifconf_parse_line", "model:file-stack-not-restored", shape, "file stack index is %d after parse_line(NULL, \"%s\")", fstate_idx, AL[i]); fstate_idx = 0; break; }
             if (ctx_state_idx != 0) { FAIL("spifconf_parse_line", "model:context-stack-depth", shape, "context stack index is %d after parse_line(NULL, \"%s\")", ctx_state_idx, AL[i]); ctx_state_idx = 0; break; } }
         g_spawns = 0;                       /* the %preproc line may run its command; the other lines may not, and the parse op checks that */
